@@ -39,6 +39,8 @@ func Scripted(prop string) []*Scenario {
 				Ops: []OpSpec{hdr("h", 1, 1, 2, 3), hdr("h", 1, 4), {Sess: "h", Kind: "sethead", N: 1}, hdr("h", 1, 5)}},
 			&Scenario{Name: "sethead-orphan-side-block", Nodes: []NodeSpec{{}, v(0, 100), v(1, 100), v(2, 100), v(2, 50)},
 				Ops: []OpSpec{ins("f", 1, 1, 2, 3), ins("f", 1, 4), {Sess: "f", Kind: "sethead", N: 1}, ins("f", 1, 4)}},
+			&Scenario{Name: "headers-first-then-blocks", Nodes: nodes, Ops: []OpSpec{hdr("m", 1, 1, 2, 3, 7, 8), ins("m", 1, 1, 2), ins("m", 1, 3), {Sess: "m", Kind: "sethead", N: 2},
+				ins("m", 1, 3, 7), hdr("m", 1, 8), {Sess: "m", Kind: "sethead", N: 4}, {Sess: "m", Kind: "reopen"}, ins("m", 1, 8), {Sess: "m", Kind: "sethead", N: 1}}},
 			prunedSideScenario(),
 			&Scenario{Name: "mixed", Nodes: nodes, Ops: []OpSpec{ins("m", 1, 1, 2), hdr("m", 1, 3, 7, 8), ins("m", 2, 3), {Sess: "m", Kind: "sethead", N: 3}, hdr("m", 2, 5, 6), ins("m", 3, 7), {Sess: "m", Kind: "reopen"}, ins("m", 3, 5, 6)}},
 		)
